@@ -333,9 +333,10 @@ func generate() {
 	}
 
 	// ---- 8b. ChangeEmail / SetIDEmail (userInfoIsValidEmailUser) on a private BBS ---------
+	// SYSOP, Kahou, Kahou2 are privileged in the harness fixture (PERM_SYSOP, PERM_ACCOUNTS, PERM_ACCTREG), the others not
 	bbsUsers := []string{"SYSOP", "CodingMan", "pichu"}
 	for _, target := range append(bbsUsers, "guest") {
-		for _, req := range append(bbsUsers, "guest", "nobody") {
+		for _, req := range append(bbsUsers, "Kahou", "Kahou2", "guest", "nobody") {
 			var toks []string
 			for _, cx := range []string{ctxEmail(), ctxIDEmail(), ""} {
 				toks = append(toks, recI("e", target, "web", "a@ptt.test", cx))
@@ -349,10 +350,34 @@ func generate() {
 				recB("HS256", "w", claimsOf('e', target, "web", "nr100", nil)),
 				recB("none", "n", claimsOf('e', target, "web", "nr100", nil)),
 				recB("HS256", "e", claimsOf('e', target, "web", "nr100", map[string]string{"sub": "absent"})))
+			toks = append(toks, recI("e", "Kahou", "web", "a@ptt.test", ctxIDEmail()), recI("e", "pichu", "web", "a@ptt.test", ctxIDEmail()),
+				recI("e", "pichu", "web", "a@ptt.test", ctxEmail()))
 			for _, tk := range toks {
 				runCase(tc("chgemail", hs(req), hs(target), tk))
 				runCase(tc("setidemail", hs(req), hs(target), tk))
 			}
+		}
+	}
+	// GetEmailTokenInfo: who asks (privileged or not, by a genuine / forged / missing access token) x whose token x context
+	for _, req := range []string{"SYSOP", "Kahou", "Kahou2", "CodingMan", "pichu", "guest", "nobody"} {
+		hdrs := [][2]string{{"bearer", recI("a", req, "web")}, {"none", "E"}, {"bearer", recI("r", req, "web")},
+			{"bearer", recB("HS256", "w", claimsOf('a', req, "web", "nr100", nil))}}
+		for hi, hd := range hdrs {
+			for _, owner := range []string{req, "pichu", "SYSOP", "guest"} {
+				for _, cx := range []string{ctxEmail(), ctxIDEmail()} {
+					for _, ask := range []string{ctxEmail(), ctxIDEmail(), ""} {
+						if hi > 0 && ask == "" {
+							continue
+						}
+						runCase(tc("emailinfo", hd[0], hd[1], recI("e", owner, "web", "a@ptt.test", cx), hs(ask)))
+					}
+				}
+				runCase(tc("emailinfo", hd[0], hd[1], recI("a", owner, "web"), hs(ctxEmail())))
+				runCase(tc("emailinfo", hd[0], hd[1], recB("HS256", "e", claimsOf('e', owner, "web", "nr-1", nil)), hs(ctxEmail())))
+				runCase(tc("emailinfo", hd[0], hd[1], recB("HS256", "w", claimsOf('e', owner, "web", "nr100", nil)), hs(ctxEmail())))
+			}
+			runCase(tc("emailinfo", hd[0], hd[1], "E", hs(ctxEmail())))
+			runCase(tc("emailinfo", hd[0], hd[1], recL("junk"), hs(ctxEmail())))
 		}
 	}
 
